@@ -310,6 +310,24 @@ func (e *Engine) ghostViewFor(t types.Type, method string) string {
 	return ""
 }
 
+// gfieldLookup resolves a ghost field name as written in package pkgPath:
+// either a field of that package or `<pkgname>_<field>` of an imported one.
+func (e *Engine) gfieldLookup(pkgPath, name string) (*GhostField, string, bool) {
+	if g, ok := e.gfields[pkgPath+" "+name]; ok {
+		e.synth(pkgPath)
+		return g, e.ghostFields[g.Name], true
+	}
+	if i := strings.Index(name, "_"); i > 0 {
+		for _, g := range e.gfields {
+			if g.Name == name[i+1:] && g.PkgPath != pkgPath && e.imports(pkgPath, g.PkgPath) && e.typesPkg(g.PkgPath).Name() == name[:i] {
+				e.synth(g.PkgPath)
+				return g, e.ghostFields[g.Name], true
+			}
+		}
+	}
+	return nil, "", false
+}
+
 func (e *Engine) ghostFieldSort(name string) string {
 	if s, ok := e.ghostFields[name]; ok {
 		return s
